@@ -159,6 +159,7 @@ Definition add_vote (vs : voteset) (v : vote) : res (voteset * bool * N) :=
   | _ =>
     if negb ((v_height v =? vs_height vs) && (v_round v =? vs_round vs) && N.eqb (v_type v) (vs_type vs))
     then Ok (vs, false, 1%N)
+    else if Z.of_nat (length (vs_vals vs)) <=? v_index v then Ok (vs, false, 2%N)   (* index beyond the set *)
     else
       let i := Z.to_nat (v_index v) in
       match nth_error (vs_vals vs) i with
